@@ -225,6 +225,14 @@ def _policy(ip, dns, node, dns_ref, req_host, req_node):
 
 def c15c(tree, ob):
     fv = FuncView(tree, SESS, 'Messenger.merge_session_params')
+    # the IPADDR-ID reference is the address of the PEER
+    refs = [n for n in walk_local(fv.func) if isinstance(n, ast.Assign) and any(src(t) == 'peer_ipaddrid' for t in n.targets)]
+    for n in refs:
+        v = src(fv.value_at(n.value, n, depth=4))
+        if 'getpeername()' in v and 'getsockname' not in v:
+            ob.site(SESS, n, 'IP reference identifier = address of the peer socket')
+        else:
+            ob.violate(SESS, fv.qual, src(n) + '  (= ' + v[:60] + ')', 'the IPADDR-ID reference is not the address of the peer: certificate IP names are matched against the wrong address', n)
     # (the policy decision, not the conversion of a decoding error inside an except arm)
     raises = [r for r in walk_local(fv.func) if isinstance(r, ast.Raise) and r.exc is not None and 'TerminateError' in src(r.exc) and enclosing(r, (ast.ExceptHandler,)) is None]
     r = one(raises, 'TerminateError raise in merge_session_params', ob)
